@@ -41,11 +41,12 @@ VARIABLES
     real,   \* the run used the real OS (nothing is known about mapped)
     bad,    \* violations: sequence of [run, line, inv]
     nbad,   \* violating steps in the current run
+    seen,   \* invariants already reported in the current run
     heap,   \* last chunk layout reported by the allocator (<<>> if none in this run)
     hknown, \* a layout was reported in this run
     drift,  \* model drift: sequence of [run, line, what]
     done
-tvars == <<i, run, c04, real, bad, nbad, heap, hknown, drift, done>>
+tvars == <<i, run, c04, real, bad, nbad, seen, heap, hknown, drift, done>>
 
 Names == {"Aligned", "Disjoint", "Accessible", "Intact", "NullJustified", "OomClean", "Returns",
           "ReleaseOnce", "NoGratuitousMap", "SteadyState", "Envelope"}
@@ -91,7 +92,7 @@ Apply(e) ==
 
 TInit ==
     /\ Init
-    /\ i = 0 /\ run = 0 /\ c04 = FALSE /\ real = FALSE /\ bad = <<>> /\ nbad = 0 /\ done = FALSE
+    /\ i = 0 /\ run = 0 /\ c04 = FALSE /\ real = FALSE /\ bad = <<>> /\ nbad = 0 /\ seen = {} /\ done = FALSE
     /\ heap = <<>> /\ hknown = FALSE /\ drift = <<>>
 
 \* model drift observed at this event (evaluated on the state BEFORE the event is applied:
@@ -120,8 +121,12 @@ Step ==
                       ELSE Append(drift, [run |-> run', line |-> i + 1, what |-> SetToSeq(d)])
         /\ LET v == Violated'
                n0 == IF e.ev = "reset" THEN 0 ELSE nbad
+               s0 == IF e.ev = "reset" THEN {} ELSE seen
            IN  /\ nbad' = IF v = {} THEN n0 ELSE n0 + 1
-               /\ bad' = IF v = {} \/ n0 >= MaxBad THEN bad
+               /\ seen' = s0 \cup v
+               \* at most MaxBad violating steps per run are reported, plus every step that
+               \* violates an invariant not yet reported in this run
+               /\ bad' = IF v = {} \/ (n0 >= MaxBad /\ v \subseteq s0) THEN bad
                          ELSE Append(bad, [run |-> run', line |-> i + 1, inv |-> SetToSeq(v)])
     /\ UNCHANGED done
 
@@ -129,7 +134,7 @@ Finish ==
     /\ i = NRec /\ ~done
     /\ done' = TRUE
     /\ PrintT(<<"VERDICT", ToJson([n |-> NRec, runs |-> run, bad |-> bad, drift |-> drift])>>)
-    /\ UNCHANGED <<vars, i, run, c04, real, bad, nbad, heap, hknown, drift>>
+    /\ UNCHANGED <<vars, i, run, c04, real, bad, nbad, seen, heap, hknown, drift>>
 
 TNext == Step \/ Finish
 =============================================================================
